@@ -18,12 +18,13 @@ PROP = dict(
     lean_modules=["MM.Props.C15"],
     theorems=[
         "MM.C15.C15_holds",
+        "MM.C15.C15_holds_mixed",
         "MM.C15.C15_beyond",
         "MM.C15.C15_at_limit",
         "MM.C15.C15_no_wrap",
     ],
     spec=True,
-    rule="cases = random topology (chain/ring/star/clique/tree+extra edges, 2..5 agents, rarely 9..20; thorough up to 7) x random local routes (CIDR v4/v6, domain exact/wildcard, forward; base metrics 0..10 and 65534) x op schedule written while driving the real mesh: bring links up (with/without table replay, before or between deliveries), deliver/duplicate/lose a chosen queued frame, announce, withdraw, expire a cached key, replay a table, stale cleanup, lose a connection (disconnect); rare streams: an origin with 256..315 routes (announcements and replays span several advertisements), a reroute case (link behind the next hop disappears while an equally long alternative exists), and a `race` stress op (one announcement handed to a fresh agent by k goroutines at once); every case drains to quiescence and dumps the whole state. After every op both sides print the acting agent's counter, seen cache, all four tables (metric, sequence, path, last-update tick) and the touched queues (origin, sequence, path, seen-by, routes+metrics). Non-trivial = an op that handled a frame, replayed a table or changed a cache/table. Engine c15 uses hop limits 1..4 (rarely 5, 8, 16) on chains, rings and meshes longer than the limit. spec: no printed table entry has a path longer than the limit, no forwarded frame (seen-by longer than one) carries one. Engine c15w builds config.Default() with routing.max_hops = h, runs the real agent.New and reads the limit the agent's flooder ended up with (must be h), and checks config.Validate's 1..255 range",
+    rule="cases = random topology (chain/ring/star/clique/tree+extra edges, 2..5 agents, rarely 9..20; thorough up to 7) x random local routes (CIDR v4/v6, domain exact/wildcard, forward; base metrics 0..10 and 65534) x op schedule written while driving the real mesh: bring links up (with/without table replay, before or between deliveries), deliver/duplicate/lose a chosen queued frame, announce, withdraw, expire a cached key, replay a table, stale cleanup, lose a connection (disconnect); rare streams: an origin with 256..315 routes (announcements and replays span several advertisements), a reroute case (link behind the next hop disappears while an equally long alternative exists), and a `race` stress op (one announcement handed to a fresh agent by k goroutines at once); every case drains to quiescence and dumps the whole state. After every op both sides print the acting agent's counter, seen cache, all four tables (metric, sequence, path, last-update tick) and the touched queues (origin, sequence, path, seen-by, routes+metrics). Non-trivial = an op that handled a frame, replayed a table or changed a cache/table. Engine c15 uses hop limits 1..4 (rarely 5, 8, 16) on chains, rings and meshes longer than the limit; 40% of its cases give every agent its own limit (`reset n h0,h1,...`), and every script starts, for h = 1..4, with a chain whose far agents have limit h behind neighbours with limit 16 (they are handed the announcement and a table replay from h+1 hops) and with `inject h len` ops (a fresh real Flooder with max_hops = h is handed an advertisement with CIDR, domain, forward and presence routes whose path has h-1, h, h+1, h+2 agents). The spec judges ALL four tables of an agent against that agent's own limit, and every sent frame against the sender's limit. spec: no printed table entry has a path longer than the limit, no forwarded frame (seen-by longer than one) carries one. Engine c15w builds config.Default() with routing.max_hops = h, runs the real agent.New and reads the limit the agent's flooder ended up with (must be h), and checks config.Validate's 1..255 range",
     nontrivial=lambda op, out: out.startswith(("r=new", "r=seen", "r=drop", "r=ord:", "r=removed")),
     trusted_base=[
         'MM/Model/C11.lean models HandleRouteAdvertise / HandleRouteWithdraw / floodAdvertisementEncrypted / floodWithdrawal / floodFrame / AnnounceLocalRoutes / WithdrawLocalRoutes / SendFullTable / cleanupSeenCache (flood.go), Process*RouteAdvertise / AddLocal*Route / CleanupStale*Routes (manager.go) and the four AddRoute update rules; tied to the code by the differential run (N real Flooder+Manager pairs over a queueing PeerSender)',
